@@ -20,6 +20,9 @@ CORE_NAMES = ['A', 'AI', 'D', 'DI', 'H2', 'Hh', 'I2v', 'G', 'GT', 'Pr', 'PrT', '
               'R1', 'R2', 'R3', 'R1T', 'R2T', 'Hw', 'Pl', 'Hq', 'Iqu', 'Mv', 'MvT', 'Mvi', 'Rs', 'RsT', 'Rv', 'Hm', 'H6']
 
 
+SMALL_NAMES = ['A', 'AI', 'B', 'BI', 'D', 'DI', 'H2', 'I2v']
+
+
 def tla_set(names) -> str:
     return '{' + ', '.join(f'"{n}"' for n in names) + '}'
 
@@ -95,6 +98,10 @@ def execute(case: dict) -> dict:
         out['after_ok'], out['after_err'] = _close(after, want, tol)
         out['structs_ok'] = bool(red.in_structure() == op.in_structure()
                                  and red.out_structure() == op.out_structure())
+        # reduce() returns a new expression: the unreduced operator (and its operands) must be untouched
+        if out['firings']:
+            again = terms.dense_of(op)
+            out['unchanged_ok'], _ = _close(again, before, tol)
     except Exception as exc:
         out['exc'] = f'apply-reduced {type(exc).__name__}: {str(exc)[:200]}'
     out['den'] = case['den']
@@ -166,6 +173,9 @@ def judge(prop: str, cases: list[dict], traces: list[dict], verdicts: dict, verd
             if not t.get('structs_ok', True):
                 verd.report(f'structure:{label}', 'structure', case, {'result': t['result']})
                 continue
+            if not t.get('unchanged_ok', True):
+                verd.report(f'operand_mutated:{label}', 'reduce_mutated_its_operands', case, {'result': t['result']})
+                continue
         elif t.get('exc'):
             continue      # C07 is about the shape of the result; exceptions are C01's
         if t.get('opaque'):
@@ -200,7 +210,9 @@ def run(prop: str, tier: str, seed: int) -> int:
     from concurrent.futures import ThreadPoolExecutor
 
     with ThreadPoolExecutor(max_workers=3) as pool:
-        jobs = [pool.submit(generate_chains, 3, ALL_NAMES, 2)]
+        jobs = [pool.submit(generate_chains, 3, ALL_NAMES, 2),
+                # length 4 over one space: a cancelling pair in the middle whose neighbours become reducible
+                pool.submit(generate_chains, 4, SMALL_NAMES, 1)]
         if tier != 'quick':
             jobs.append(pool.submit(generate_chains, 4, CORE_NAMES, 3))
         nest_job = pool.submit(nested_cases, tier)
@@ -218,7 +230,9 @@ def run(prop: str, tier: str, seed: int) -> int:
     if tier == 'quick':
         # every chain in which the specification's scan fires a rule is replayed; the others and the
         # nested terms are sampled, stratified by the set of operand kinds / by template and container
-        firing = [c for c in cases if c.get('fired', 0) >= 1]
+        firing = [c for c in cases if c.get('fired', 0) >= 2 or (c.get('fired', 0) == 1 and len(c['names']) <= 3)]
+        one4 = [c for c in cases if c.get('fired', 0) == 1 and len(c['names']) > 3]
+        firing += rng.sample(one4, min(len(one4), 300))
         quiet = [c for c in cases if 'fired' in c and c['fired'] == 0]
         nestd = [c for c in cases if 'fired' not in c]
         q, s1 = fx.stratified_sample(quiet, lambda c: '/'.join(sorted(set(_kinds(c['term'])))), 1, seed)
